@@ -697,10 +697,16 @@ pub fn gen_input(rng: &mut Rng, len: usize, distinct: bool) -> Vec<u64> {
 }
 
 pub fn gen_len(rng: &mut Rng, thorough: bool) -> usize {
-    match rng.below(20) {
+    match rng.below(22) {
         0 => 0,
         1 => 1,
         2 => 2,
+        // boundaries: powers of two and their neighbours
+        20 | 21 => {
+            let b = *rng.pick(&[4usize, 8, 16, 32, 64, 128, 256, 512, 1024]);
+            let b = if thorough && rng.chance(1, 4) { b * 4 } else { b };
+            (b + rng.below(3) as usize).saturating_sub(1)
+        }
         3..=12 => rng.range(3, 40) as usize,
         13..=17 => rng.range(41, 70) as usize,
         _ => {
@@ -733,11 +739,16 @@ pub fn gen_src_sets(rng: &mut Rng, len: usize, force_par: bool) -> Vec<SetD> {
         0 => {}
         1 => v.push(SetD::CsEnum(ChunkSize::Auto)),
         2..=5 => {
-            let c = match rng.below(6) {
+            let c = match rng.below(9) {
                 0 => 1,
                 1 => len.max(1),
                 2 => len + 1,
                 3 => len.saturating_sub(1).max(1),
+                // divisors of the length and their neighbours: the last pull is full / has one
+                // element / misses one
+                4 => (len / rng.range(2, 4) as usize).max(1),
+                5 => (len / rng.range(2, 4) as usize + 1).max(1),
+                6 => *rng.pick(&[2usize, 4, 8, 16, 32, 64]),
                 _ => rng.range(1, 12) as usize,
             };
             v.push(if rng.chance(1, 2) { SetD::CsUsize(c) } else { SetD::CsEnum(ChunkSize::Exact(nz(c))) })
